@@ -265,8 +265,14 @@ func validateSignArguments(signer any, signOpts SignerSignOptions) error {
 
 func addUserMetadataToDescriptor(ctx context.Context, desc ocispec.Descriptor, userMetadata map[string]string) (ocispec.Descriptor, error) {
 	logger := log.GetLogger(ctx)
-	if desc.Annotations == nil && len(userMetadata) > 0 {
-		desc.Annotations = map[string]string{}
+	if len(userMetadata) > 0 {
+		// desc is a copy, but its Annotations map is shared with the caller's
+		// descriptor: add the user metadata to a copy of the map.
+		annotations := make(map[string]string, len(desc.Annotations)+len(userMetadata))
+		for k, v := range desc.Annotations {
+			annotations[k] = v
+		}
+		desc.Annotations = annotations
 	}
 	for k, v := range userMetadata {
 		logger.Debugf("Adding metadata %v=%v to annotations", k, v)
